@@ -203,6 +203,18 @@ def m_bitcount(kind):
     return f
 
 
+def m_abs(I, st, args, dest_ty, *r):
+    a = _deref(I, st, args[0])
+    if a.kind != "int":
+        return m_top(I, st, args, dest_ty)
+    if a.is_const():
+        return IntV.const(a.ty, abs(a.lo))
+    lo = 0 if a.lo <= 0 <= a.hi else min(abs(a.lo), abs(a.hi))
+    hi = max(abs(a.lo), abs(a.hi))
+    aff = Lin(0, ((("abs", a.aff, 0), 1),)) if a.aff is not None else None
+    return IntV(a.ty, bits_dep_all(a.w, a.deps()), lo, hi, aff, False, a.lineage)
+
+
 def m_to_bytes(little):
     """iN::to_le_bytes / to_be_bytes: byte k is bits 8k..8k+7 of the value"""
     def f(I, st, args, dest_ty, *r):
@@ -1067,6 +1079,7 @@ MODELS = [(re.compile(p), f) for p, f in [
     (r"num::<impl [iu]\w+>::saturating_add$", m_saturating("Add")),
     (r"num::<impl u\w+>::rotate_left$", m_rotate(True)),
     (r"num::<impl u\w+>::rotate_right$", m_rotate(False)),
+    (r"num::<impl i\w+>::abs$|num::<impl i\w+>::unsigned_abs$|num::<impl i\w+>::wrapping_abs$", m_abs),
     (r"cmp::Ord::min$|cmp::min$", m_minmax(True)),
     (r"cmp::Ord::max$|cmp::max$", m_minmax(False)),
     (r"num::<impl [iu]\w+>::count_ones$", m_bitcount("ones")),
